@@ -251,7 +251,7 @@ func cmdCheck(args []string) {
 				outLines = append(outLines, fmt.Sprintf("KNOWN-FINDING: property=%s %s (%s)", *prop, kf.What, o.Name))
 				continue
 			}
-			if !locked[o.Name] && !*updateLock && len(lock[*prop]) > 0 {
+			if !locked[o.Name] && !*updateLock && len(lock[*prop]) > 0 && !knownBase(o.Name, locked, known, *prop) {
 				// a new obligation that never discharged on the pinned tree: undecided, not a violation
 				problems = append(problems, "UNCLAIMED-OBLIGATION not discharged: "+o.Name+" ("+st+")")
 				continue
@@ -397,4 +397,32 @@ func explanation(ps *PropSpec) string {
 		return ps.Note
 	}
 	return "obligations generated from the contracts of this property"
+}
+
+// knownBase: some obligation of the same clause (name without its @site / #k
+// suffix) is claimed in the lock file or recorded as a finding; a new failing
+// site of such a clause is a violation, not an unclaimed obligation.
+func knownBase(name string, locked map[string]bool, known []knownFinding, prop string) bool {
+	base := func(n string) string {
+		if k := strings.IndexAny(n, "@#"); k >= 0 {
+			// keep call[...#k] intact: cut only after the last ']'
+			if j := strings.LastIndex(n, "]"); j >= 0 && j < len(n)-1 {
+				return n[:j+1]
+			}
+			_ = k
+		}
+		return n
+	}
+	b := base(name)
+	for n := range locked {
+		if base(n) == b {
+			return true
+		}
+	}
+	for _, kf := range known {
+		if kf.Prop == prop && base(kf.Obligation) == b {
+			return true
+		}
+	}
+	return false
 }
